@@ -51,7 +51,8 @@ def generate(rng, tier):
             n = max(4, 12000 // (m * p))
         data, style = statgen.gen_array(rng, m, n, p)
         ty = rng.choice(["f32", "f32", "f64", "i32"])
-        e = 0 if ty == "i32" else rng.choice([0, 0, -3, 2])
+        # incl. very small scales (split R-hat is scale-free: no absolute threshold on W may decide anything)
+        e = 0 if ty == "i32" else rng.choice([0, 0, -3, 2, -16, -24])
         if rng.random() < 0.05:      # constant column -> NaN / inf diagnostics must not crash the summary
             for c in range(m):
                 for t in range(n):
